@@ -1,9 +1,234 @@
+(* C14 property theorems.  Nothing but statements closed by `exact`, each followed by
+   Print Assumptions.  The definitions quantified over are the executable model of Model.v, which
+   the correspondence run compares with the real transformers on every check. *)
 From Coq Require Import QArith List Bool ZArith Arith.
 Require Import SkV.Lib.Base SkV.C14.Model SkV.C14.PaaProof SkV.C14.Proofs.
 Import ListNotations.
 Open Scope Q_scope.
 
+(* padding: every cell has exactly the fitted / requested length L, keeps its values as a prefix
+   and is filled with the fill value behind them; rows and columns stay in place *)
+Theorem C14_pad_spec : forall L fill p out,
+  pad_apply L fill p = Ok out ->
+  cellwise (fun s o => length o = L /\
+     forall j, (j < L)%nat -> nth j o 0 = if (j <? length s)%nat then nth j s 0 else fill) p out.
+Proof. exact pad_spec. Qed.
+Print Assumptions C14_pad_spec.
+
+Theorem C14_pad_rejects_iff_a_series_is_longer : forall L fill p,
+  pad_apply L fill p = Err <-> exists i s, In i p /\ In s i /\ (L < length s)%nat.
+Proof. exact pad_rejects_iff. Qed.
+Print Assumptions C14_pad_rejects_iff_a_series_is_longer.
+
+Theorem C14_pad_default_is_longest : forall pfit,
+  (forall i s, In i pfit -> In s i -> (length s <= pad_fit None pfit)%nat) /\
+  (cell_lengths pfit <> [] -> exists i s, In i pfit /\ In s i /\ length s = pad_fit None pfit).
+Proof. exact pad_default_is_longest. Qed.
+Print Assumptions C14_pad_default_is_longest.
+
+(* truncation: [0, lower) or [lower, upper) of every cell, exactly that many values *)
+Theorem C14_truncate_spec : forall lo upper p out,
+  trunc_apply lo upper p = Ok out ->
+  cellwise (fun s o =>
+    match upper with
+    | None => length o = lo /\ forall j, (j < lo)%nat -> nth j o 0 = nth j s 0
+    | Some u => length o = (u - lo)%nat /\
+                forall j, (j < u - lo)%nat -> nth j o 0 = nth (lo + j) s 0
+    end) p out.
+Proof. exact truncate_spec. Qed.
+Print Assumptions C14_truncate_spec.
+
+Theorem C14_truncate_default_is_shortest : forall pfit,
+  (forall i s, In i pfit -> In s i -> (trunc_fit None pfit <= length s)%nat) /\
+  (cell_lengths pfit <> [] -> exists i s, In i pfit /\ In s i /\ length s = trunc_fit None pfit).
+Proof. exact trunc_default_is_shortest. Qed.
+Print Assumptions C14_truncate_default_is_shortest.
+
+(* linear interpolation onto m equally spaced points: grid point j sits at j (n-1)/(m-1) in index
+   units; its value is the convex combination of the two bracketing samples; samples hit exactly
+   are returned exactly (first / last point, identity for m = n) *)
+Theorem C14_interp_spec : forall m p out, (2 <= min_len p)%nat ->
+  interp_apply m p = Ok out -> cellwise (interp_cell_ok m) p out.
+Proof. exact interp_spec. Qed.
+Print Assumptions C14_interp_spec.
+
+(* tabularisation: column-then-time order: value t of column c sits at offset(c) + t, where
+   offset(c+1) = offset(c) + length of column c *)
+Theorem C14_tabularize_column_then_time : forall p rows, tabularize p = Ok rows ->
+  Forall2 (fun i r =>
+    length r = col_offset i (length i) /\
+    (forall c, (c < length i)%nat -> col_offset i (S c) = (col_offset i c + length (nth c i []))%nat) /\
+    forall c t, (c < length i)%nat -> (t < length (nth c i []))%nat ->
+      nth (col_offset i c + t) r 0 = nth t (nth c i []) 0) p rows.
+Proof. exact tabularize_column_then_time. Qed.
+Print Assumptions C14_tabularize_column_then_time.
+
+Theorem C14_column_concat_spec : forall p out, col_concat p = Ok out ->
+  Forall2 (fun i o => exists r, o = [r] /\ tab_row_ok i r) p out.
+Proof. exact col_concat_spec. Qed.
+Print Assumptions C14_column_concat_spec.
+
+(* FLAGSHIP: the running-sum algorithm of PAA._perform_paa_along_dim (fractional frames, as
+   coded) returns, for EVERY series length n and every 1 <= m <= n (dividing n or not), exactly
+   the m frame means (1/L) * integral over [kL, (k+1)L) of the step function, L = n/m *)
 Theorem C14_paa_is_frame_mean : forall (m : nat) (s : series),
   (1 <= m <= length s)%nat -> Forall2 Qeq (paa_coded m s) (paa_spec m s).
 Proof. exact paa_coded_is_frame_mean. Qed.
 Print Assumptions C14_paa_is_frame_mean.
+
+Theorem C14_paa_panel_spec : forall m p out, (1 <= m <= min_len p)%nat -> paa_apply m p = Ok out ->
+  cellwise (fun s o => Forall2 Qeq o (paa_spec m s) /\ length o = m) p out.
+Proof. exact paa_panel_spec. Qed.
+Print Assumptions C14_paa_panel_spec.
+
+(* when m divides n, frame k is the plain mean of the k-th block of n/m consecutive values *)
+Theorem C14_paa_divisible_block_mean : forall (q m k : nat) (s : series),
+  (1 <= q)%nat -> (1 <= m)%nat -> length s = (m * q)%nat -> (k < m)%nat ->
+  paa_frame m s k == qmean (slice (k * q) (k * q + q) s).
+Proof. exact paa_divisible_block_mean. Qed.
+Print Assumptions C14_paa_divisible_block_mean.
+
+(* k intervals: they tile [0, n) (start_0 = 0, end_i = start_{i+1}, end_last = n), are non-empty,
+   their sizes differ by at most one, and the cells concatenate back to the series *)
+Theorem C14_interval_segment_spec : forall n k (s : series),
+  (1 <= k <= n)%nat -> length s = n ->
+  let bs := split_bounds n k in
+  length bs = k /\ tiles 0 bs n /\
+  (forall a b, In (a, b) bs -> (a < b)%nat /\ ((b - a = n / k)%nat \/ (b - a = S (n / k))%nat)) /\
+  concat (segment bs s) = s.
+Proof. exact interval_segment_spec. Qed.
+Print Assumptions C14_interval_segment_spec.
+
+(* explicit interval arrays / fitted random intervals: each cell is the half-open slice *)
+Theorem C14_explicit_interval_segment_spec : forall ivs (s : series),
+  Forall2 (fun iv o => forall j, (j < snd iv - fst iv)%nat -> (snd iv <= length s)%nat ->
+                       length o = (snd iv - fst iv)%nat /\ nth j o 0 = nth (fst iv + j) s 0)
+          ivs (segment ivs s).
+Proof. exact segment_spec. Qed.
+Print Assumptions C14_explicit_interval_segment_spec.
+
+(* sliding windows (edge padding floor(w/2), as coded): one window per time point, each of exactly
+   w values; value j of window i is s[clamp(i + j - floor(w/2), 0, n-1)] *)
+Theorem C14_sliding_segment_spec : forall w (s : series), (1 <= w)%nat -> s <> [] ->
+  length (sliding_coded w s) = length s /\
+  forall i, (i < length s)%nat ->
+    let win := nth i (sliding_coded w s) [] in
+    length win = w /\
+    forall j, (j < w)%nat -> nth j win 0 = nth (Nat.min (i + j - w / 2) (length s - 1)) s 0.
+Proof. exact sliding_segment_spec. Qed.
+Print Assumptions C14_sliding_segment_spec.
+
+(* features of the fitted intervals: feature-major layout over the half-open slices *)
+Theorem C14_rife_spec : forall feats ivs (s : series),
+  length (rife_row feats ivs s) = (length feats * length ivs)%nat /\
+  forall f v, (f < length feats)%nat -> (v < length ivs)%nat ->
+    nth (f * length ivs + v) (rife_row feats ivs s) (0, false) =
+    feat_apply (nth f feats FMean) (slice (fst (nth v ivs (0, 0)%nat)) (snd (nth v ivs (0, 0)%nat)) s).
+Proof. exact rife_spec. Qed.
+Print Assumptions C14_rife_spec.
+
+(* utils.slope_and_trend._slope as coded is the ordinary-least-squares slope against 1..n:
+   the residuals of the fitted line sum to zero and are orthogonal to the regressor *)
+Theorem C14_slope_is_ols : forall (y : series), (2 <= length y)%nat ->
+  let x := time_axis (length y) in
+  let b := slope_coded y in
+  let a := qmean y - b * qmean x in
+  qsum (map2 (fun yi xi => yi - a - b * xi) y x) == 0 /\
+  qsum (map2 (fun yi xi => (yi - a - b * xi) * xi) y x) == 0.
+Proof. exact slope_is_ols. Qed.
+Print Assumptions C14_slope_is_ols.
+
+(* imputation: length kept, observed values untouched, nothing missing afterwards *)
+Theorem C14_impute_spec : forall m (l : oseries),
+  length (impute m l) = length l /\
+  (forall t x, nth t l None = Some x -> nth t (impute m l) None = Some x) /\
+  ((exists w, nth w l None <> None) -> forall t, (t < length l)%nat -> nth t (impute m l) None <> None).
+Proof. exact impute_spec. Qed.
+Print Assumptions C14_impute_spec.
+
+(* the value a gap receives under the mean / median / constant / linear / nearest rule *)
+Theorem C14_impute_rules : forall (l : oseries) t, (t < length l)%nat -> nth t l None = None ->
+  (observed l <> [] -> nth t (impute IMean l) None = Some (qmean (observed l))) /\
+  (observed l <> [] -> nth t (impute IMedian l) None = Some (median (observed l))) /\
+  (forall v, nth t (impute (IConstant v) l) None = Some v) /\
+  (forall tp vp tn vn, prev_obs l t = Some (tp, vp) -> next_obs l t = Some (tn, vn) ->
+     nth t (impute ILinear l) None = Some (vp + (Qn t - Qn tp) / (Qn tn - Qn tp) * (vn - vp)) /\
+     nth t (impute INearest l) None = Some (if (t - tp <=? tn - t)%nat then vp else vn)) /\
+  (forall tp vp, prev_obs l t = Some (tp, vp) -> next_obs l t = None ->
+     nth t (impute ILinear l) None = Some vp).
+Proof. exact impute_rules. Qed.
+Print Assumptions C14_impute_rules.
+
+(* ... where prev_obs / next_obs are the nearest observations before / after the gap *)
+Theorem C14_impute_neighbours : forall (l : oseries) t,
+  (forall tp vp, prev_obs l t = Some (tp, vp) ->
+     (tp < t)%nat /\ nth tp l None = Some vp /\ forall u, (tp < u < t)%nat -> nth u l None = None) /\
+  (forall tn vn, next_obs l t = Some (tn, vn) ->
+     (t < tn)%nat /\ nth tn l None = Some vn /\ forall u, (t < u < tn)%nat -> nth u l None = None).
+Proof. exact impute_neighbours. Qed.
+Print Assumptions C14_impute_neighbours.
+
+Theorem C14_acf_spec : forall adjusted nlags (z r : series), acf adjusted nlags z = Ok r ->
+  length r = match nlags with Some k => Nat.min (S k) (length z) | None => length z end /\
+  (forall k, (k < length r)%nat -> nth k r 0 == acov adjusted z k / acov adjusted z 0) /\
+  ((1 <= length r)%nat -> nth 0 r 0 == 1).
+Proof. exact acf_spec. Qed.
+Print Assumptions C14_acf_spec.
+
+Theorem C14_minmax_adaptor_spec : forall (cfit c : series),
+  let mn := qmin_list cfit in let mx := qmax_list cfit in
+  length (minmax_col cfit c) = length c /\
+  (forall x, In x cfit -> mn <= x <= mx) /\
+  (~ mx - mn == 0 -> forall j, (j < length c)%nat ->
+     nth j (minmax_col cfit c) 0 == (qnth c j - mn) / (mx - mn)) /\
+  (~ mx - mn == 0 -> forall j, (j < length cfit)%nat ->
+     0 <= nth j (minmax_col cfit cfit) 0 <= 1).
+Proof. exact minmax_col_spec. Qed.
+Print Assumptions C14_minmax_adaptor_spec.
+
+(* every panel transformer (incl. the row transformer = map of the wrapped series function over
+   every cell): the output is the per-instance function mapped over the instances, in order *)
+Theorem C14_one_row_per_instance_in_order : forall t p out,
+  apply_xf t p = Ok out ->
+  out = map (row_xf t) p /\ length out = length p /\
+  forall i, (i < length p)%nat -> nth i out [] = row_xf t (nth i p []).
+Proof. exact one_row_per_instance_in_order. Qed.
+Print Assumptions C14_one_row_per_instance_in_order.
+
+Theorem C14_tabular_one_row_per_instance : forall p,
+  (forall rows, tabularize p = Ok rows -> rows = map tab_row p) /\
+  (forall g rows, row_s2p g p = Ok rows -> rows = map (map (pfun_apply g)) p) /\
+  (forall feats ivs rows, rife_apply feats ivs p = Ok rows ->
+     rows = map (fun i => rife_row feats ivs (only_col i)) p).
+Proof. exact tabular_one_row_per_instance. Qed.
+Print Assumptions C14_tabular_one_row_per_instance.
+
+(* length-changing transformers return exactly the requested length for EVERY cell of ANY panel
+   (no equal-length assumption) *)
+Theorem C14_exact_lengths_for_unequal_panels : forall (p out : panel),
+  (forall L fill, pad_apply L fill p = Ok out ->
+     forall io o, In io out -> In o io -> length o = L) /\
+  (forall lo upper, trunc_apply lo upper p = Ok out ->
+     forall io o, In io out -> In o io ->
+       length o = match upper with None => lo | Some u => (u - lo)%nat end) /\
+  (forall m, interp_apply m p = Ok out -> forall io o, In io out -> In o io -> length o = m) /\
+  (forall m, (1 <= m <= min_len p)%nat -> paa_apply m p = Ok out ->
+     forall io o, In io out -> In o io -> length o = m).
+Proof. exact exact_lengths_for_unequal_panels. Qed.
+Print Assumptions C14_exact_lengths_for_unequal_panels.
+
+(* the hypotheses are satisfiable by non-trivial instances: a ragged two-column panel is padded,
+   truncated and resampled; 7 points in 3 fractional frames; 16 points in 3 intervals *)
+Example C14_nonvacuous :
+  let p0 : panel := [[[1; 2; 3]; [4; 5]]; [[6; 7; 8; 9]; [1; 0]]] in
+  pad_apply (pad_fit None p0) (-1 # 1) p0
+    = Ok [[[1; 2; 3; -1 # 1]; [4; 5; -1 # 1; -1 # 1]]; [[6; 7; 8; 9]; [1; 0; -1 # 1; -1 # 1]]] /\
+  trunc_apply (trunc_fit None p0) None p0 = Ok [[[1; 2]; [4; 5]]; [[6; 7]; [1; 0]]] /\
+  (exists out, interp_apply 3 p0 = Ok out /\ (2 <= min_len p0)%nat) /\
+  map Qred (paa_coded 3 [1; 2; 3; 4; 5; 6; 7]) = [12 # 7; 4; 44 # 7] /\
+  split_bounds 16 3 = [(0, 6); (6, 11); (11, 16)]%nat /\
+  sliding_coded 3 [1; 2; 3] = [[1; 1; 2]; [1; 2; 3]; [2; 3; 3]] /\
+  impute ILinear [None; Some 1; None; None; Some 4; None] = 
+    [Some 1; Some 1; Some (1 + (2 - 1) / (4 - 1) * (4 - 1)); Some (1 + (3 - 1) / (4 - 1) * (4 - 1));
+     Some 4; Some 4].
+Proof. exact nonvacuous_example. Qed.
